@@ -684,12 +684,14 @@ fn plan_for(sweep: &str) -> (Plan, [u32; 4]) {
         "cuts" => (Plan { sc: Class::Dev(2), fc: Class::Dev(2), perm_cap: 120, ask_paths: true, ask_limits: true }, [1, 0, 1, 0]),
         // quick: the default case × every single cut offset × one Pending before any read
         "pending" => (Plan { sc: Class::Dev(2), fc: Class::Dev(3), perm_cap: 120, ask_paths: true, ask_limits: true }, [1, 1, 0, 0]),
-        // thorough: the complete structural product with complete permutations and both flavours, body read whole
-        "structure" => (Plan { sc: ex, fc: ex, perm_cap: 720, ask_paths: true, ask_limits: true }, [0, 0, 0, 0]),
+        // thorough: the complete structural product with complete permutations, body read whole
+        "structure" => (Plan { sc: ex, fc: Class::Dev(3), perm_cap: 720, ask_paths: true, ask_limits: true }, [0, 0, 0, 0]),
         // thorough: the default case × every pair of cut offsets × one Pending × flavour
         "cut-pairs" => (Plan { sc: Class::Dev(2), fc: Class::Dev(3), perm_cap: 120, ask_paths: true, ask_limits: true }, [2, 1, 0, 1]),
-        // thorough: up to two structural deviations × every single cut × one Pending × flavour
-        "reads2" => (Plan { sc: Class::Dev(2), fc: Class::Dev(3), perm_cap: 120, ask_paths: true, ask_limits: true }, [1, 1, 2, 1]),
+        // thorough: up to two structural deviations (flavour is one of them) × every single cut
+        "reads2" => (Plan { sc: Class::Dev(2), fc: Class::Dev(2), perm_cap: 120, ask_paths: true, ask_limits: true }, [1, 0, 2, 0]),
+        // thorough: single structural deviation × every single cut × one Pending
+        "pending2" => (Plan { sc: Class::Dev(2), fc: Class::Dev(2), perm_cap: 120, ask_paths: true, ask_limits: true }, [1, 1, 1, 0]),
         _ => panic!("unknown sweep {sweep}"),
     }
 }
@@ -701,8 +703,8 @@ pub fn run(cx: &Cx) {
          (L = the size limit; without one: all 3 / mixed 3-4-5) × content {plain, boundary look-alike} × read plan {whole, cut offsets, one Pending}. Quick: sweep `binding` = complete product of the binding \
          dimensions without limits; `limits` = complete product of the limit dimensions with default paths (both: permutations complete for ≤5 parts, a 26-element subset for 6 parts, body read whole); \
          `cuts` = default case and each single structural deviation × every single cut offset; `pending` = default case × every single cut offset × one Pending before any read. Thorough: `structure` = the complete \
-         product of all structural dimensions with all 720 permutations and both flavours; `cut-pairs` = default case × every pair of cut offsets × one Pending × flavour; `reads2` = ≤2 structural deviations × every \
-         single cut × one Pending × flavour. Non-trivial = executions accepted with ≥1 file bound exactly as mapped, or rejected as the reference demands (missing file / file too large / too many files).",
+         product of all structural dimensions with all 720 permutations (plain content); `cut-pairs` = default case × every pair of cut offsets × one Pending × flavour; `reads2` = ≤2 structural deviations (flavour \
+         being one) × every single cut; `pending2` = ≤1 structural deviation × every single cut × one Pending. Non-trivial = executions accepted with ≥1 file bound exactly as mapped, or rejected as the reference demands (missing file / file too large / too many files).",
     );
     cx.assume("a map path that names no existing variable, two files mapped to the same path, duplicate part names and a batch index out of range are outside the enumerated space (the statement does not say what they mean)");
     cx.assume("an extra unmapped file part counts towards max_num_files and max_file_size (it is an uploaded file) and must not be bound anywhere");
@@ -723,7 +725,7 @@ pub fn run(cx: &Cx) {
         rejected_by_cause: Default::default(),
     };
     let mut sweeps = serde_json::Map::new();
-    let names: &[&str] = if quick { &["binding", "limits", "cuts", "pending"] } else { &["structure", "cut-pairs", "reads2"] };
+    let names: &[&str] = if quick { &["binding", "limits", "cuts", "pending"] } else { &["structure", "cut-pairs", "reads2", "pending2"] };
     for name in names {
         let (plan, bounds) = plan_for(name);
         sweeps.insert(name.to_string(), sweep(cx, name, plan, bounds, &st));
